@@ -84,9 +84,9 @@ def json_template():
     assigns = [s for s in f.body if isinstance(s, ast.Assign)]
     if len(assigns) != 1 or not isinstance(assigns[0].value, ast.Dict) or ast.unparse(assigns[0].targets[0]) != "output":
         raise Unsupported("_output_json: expected `output = {...}`")
-    last = f.body[-1]
-    if ast.unparse(last) != "click.echo(json.dumps(output, indent=2))":
-        raise Unsupported(f"_output_json: serialisation call changed: {ast.unparse(last)}")
+    _dumps_settings("_output_json", "output")      # the document is written by click.echo(json.dumps(output, ...)): item json_serialisation
+    if len(_body(f)) != 2:
+        raise Unsupported("_output_json: expected `output = {...}` followed by the output call")
     top = assigns[0].value
     tops, fields = [], None
     for k, v in zip(_keys(top), top.values):
@@ -366,59 +366,67 @@ def format_dispatch():
         raise Unsupported("format_option: default")
     # the renderer of _output_sarif must be SarifFormatter().format
     so = [ast.unparse(s) for s in _body(find_func(parse(CU), "_output_sarif"))]
-    if so != ["from src.formatters.sarif import SarifFormatter", "formatter = SarifFormatter()", "sarif_doc = formatter.format(violations)",
-              "click.echo(json.dumps(sarif_doc, indent=2))"]:
+    if so[:-1] != ["from src.formatters.sarif import SarifFormatter", "formatter = SarifFormatter()", "sarif_doc = formatter.format(violations)"] or len(so) != 4:
         raise Unsupported("_output_sarif changed")
+    _dumps_settings("_output_sarif", "sarif_doc")  # ... and written by click.echo(json.dumps(sarif_doc, ...)): item json_serialisation
     return (defn("format_dispatch", "list (string * renderer)", coq_list(table)) + defn("format_default", "renderer", default)
             + defn("format_choices", "list string", coq_str_list(opts)) + defn("format_option_default", "string", coq_string(const_value(dflt[0]))))
 
 
-def json_serialisation():
-    """the serialisation call of the two JSON renderers: click.echo(json.dumps(<doc>, indent=K[, ensure_ascii=.., sort_keys=.., separators=..]))
-    - the arguments of json.dumps the byte-level model (Model/OutputBytes.v) is parametrised by"""
+def _dumps_settings(fn: str, docvar: str):
+    """(indent, ensure_ascii, sort_keys, item separator, key separator) of the one output call of a JSON renderer, which must be its last
+    statement and have the shape click.echo(json.dumps(<docvar>, indent=K[, ensure_ascii=.., sort_keys=.., separators=..]))"""
     mod = parse(CU)
     imports = [ast.unparse(s) for s in mod.body if isinstance(s, (ast.Import, ast.ImportFrom))]
     if "import json" not in imports or "import click" not in imports:
         raise Unsupported("cli_utils: `import json` / `import click` not found at module level")
-    rebound = [n for n in ast.walk(mod) if isinstance(n, (ast.Name, ast.arg)) and getattr(n, "id", getattr(n, "arg", None)) in ("json", "click")
-               and isinstance(getattr(n, "ctx", ast.Store()), ast.Store)]
+    rebound = [n for n in ast.walk(mod) if (isinstance(n, ast.Name) and n.id in ("json", "click") and isinstance(n.ctx, ast.Store))
+               or (isinstance(n, ast.arg) and n.arg in ("json", "click"))]
     if rebound:
         raise Unsupported("cli_utils: the names json / click are rebound")
-    found = []
-    for fn, docvar in (("_output_json", "output"), ("_output_sarif", "sarif_doc")):
-        body = _body(find_func(mod, fn))
-        last = body[-1]
-        echoes = [n for n in ast.walk(find_func(mod, fn)) if isinstance(n, ast.Call) and ast.unparse(n.func) in ("click.echo", "print", "sys.stdout.write", "click.secho")]
-        if len(echoes) != 1 or not (isinstance(last, ast.Expr) and last.value is echoes[0]) or ast.unparse(echoes[0].func) != "click.echo":
-            raise Unsupported(f"{fn}: expected exactly one output call, click.echo(...), as the last statement")
-        echo = echoes[0]
-        if len(echo.args) != 1 or echo.keywords:
-            raise Unsupported(f"{fn}: click.echo arguments changed: {ast.unparse(echo)}")
-        d = echo.args[0]
-        if not (isinstance(d, ast.Call) and ast.unparse(d.func) == "json.dumps" and len(d.args) == 1 and isinstance(d.args[0], ast.Name)
-                and d.args[0].id == docvar):
-            raise Unsupported(f"{fn}: expected json.dumps({docvar}, ...) inside click.echo: {ast.unparse(d)}")
-        kw = {}
-        for k in d.keywords:
-            if k.arg not in ("indent", "ensure_ascii", "sort_keys", "separators"):
-                raise Unsupported(f"{fn}: json.dumps keyword outside the model: {k.arg}")
+    f = find_func(mod, fn)
+    last = _body(f)[-1]
+    outs = [n for n in ast.walk(f) if isinstance(n, ast.Call) and ast.unparse(n.func) in ("click.echo", "click.secho", "print", "sys.stdout.write",
+                                                                                           "sys.stdout.buffer.write")]
+    if len(outs) != 1 or not (isinstance(last, ast.Expr) and last.value is outs[0]) or ast.unparse(outs[0].func) != "click.echo":
+        raise Unsupported(f"{fn}: expected exactly one output call, click.echo(...), as the last statement")
+    echo = outs[0]
+    if len(echo.args) != 1 or echo.keywords:
+        raise Unsupported(f"{fn}: click.echo arguments changed: {ast.unparse(echo)}")
+    d = echo.args[0]
+    if not (isinstance(d, ast.Call) and ast.unparse(d.func) == "json.dumps" and len(d.args) == 1 and isinstance(d.args[0], ast.Name)
+            and d.args[0].id == docvar):
+        raise Unsupported(f"{fn}: expected json.dumps({docvar}, ...) inside click.echo: {ast.unparse(d)}")
+    kw = {}
+    for k in d.keywords:
+        if k.arg not in ("indent", "ensure_ascii", "sort_keys", "separators"):
+            raise Unsupported(f"{fn}: json.dumps keyword outside the model: {k.arg}")
+        try:
             kw[k.arg] = ast.literal_eval(k.value)
-        indent = kw.get("indent")
-        if isinstance(indent, bool) or not isinstance(indent, int) or indent < 1:
-            raise Unsupported(f"{fn}: json.dumps indent must be a positive integer literal (compact / string indents are outside the model)")
-        seps = kw.get("separators", (",", ": "))
-        if not (isinstance(seps, tuple) and len(seps) == 2 and all(isinstance(x, str) for x in seps)):
-            raise Unsupported(f"{fn}: separators shape")
-        for b in ("ensure_ascii", "sort_keys"):
-            if b in kw and not isinstance(kw[b], bool):
-                raise Unsupported(f"{fn}: {b} must be a boolean literal")
-        found.append((indent, kw.get("ensure_ascii", True), kw.get("sort_keys", False), seps[0], seps[1]))
-    if found[0] != found[1]:
-        raise Unsupported(f"_output_json and _output_sarif serialise differently: {found}")
-    indent, ea, sk, isep, ksep = found[0]
+        except ValueError as ex:
+            raise Unsupported(f"{fn}: json.dumps {k.arg} is not a literal") from ex
+    indent = kw.get("indent")
+    if isinstance(indent, bool) or not isinstance(indent, int) or indent < 1:
+        raise Unsupported(f"{fn}: json.dumps indent must be a positive integer literal (compact / string indents are outside the model)")
+    seps = kw.get("separators", (",", ": "))
+    if not (isinstance(seps, tuple) and len(seps) == 2 and all(isinstance(x, str) for x in seps)):
+        raise Unsupported(f"{fn}: separators shape")
+    for b in ("ensure_ascii", "sort_keys"):
+        if b in kw and not isinstance(kw[b], bool):
+            raise Unsupported(f"{fn}: {b} must be a boolean literal")
+    return (indent, kw.get("ensure_ascii", True), kw.get("sort_keys", False), seps[0], seps[1])
+
+
+def json_serialisation():
+    """the serialisation call of the two JSON renderers - the arguments of json.dumps the byte-level model (Model/OutputBytes.v) is parametrised by"""
+    a, b = _dumps_settings("_output_json", "output"), _dumps_settings("_output_sarif", "sarif_doc")
+    # one model for both renderers: the layout of _output_json; `json_dumps_uniform` records whether _output_sarif uses the same arguments
+    # (the theorems demand it), and an argument that is switched off in either call is switched off in the generated constant
+    indent, _, _, isep, ksep = a
+    ea, sk = a[1] and b[1], a[2] or b[2]
     return (defn("json_dumps_indent", "nat", f"{indent}%nat") + defn("json_dumps_ensure_ascii", "bool", "true" if ea else "false")
             + defn("json_dumps_sort_keys", "bool", "true" if sk else "false") + defn("json_dumps_item_sep", "string", coq_string(isep))
-            + defn("json_dumps_key_sep", "string", coq_string(ksep)))
+            + defn("json_dumps_key_sep", "string", coq_string(ksep)) + defn("json_dumps_uniform", "bool", "true" if a == b else "false"))
 
 
 def sanitize_codec():
